@@ -62,8 +62,8 @@ pub fn base_state(bytes: Vec<u8>) -> Result<State, String> {
     Ok(State { bytes, exp, comment: p.comment })
 }
 
-pub const N_OPS: usize = 7;
-pub const OPS: [&str; N_OPS] = ["nothing", "file-stored", "file-deflated", "dir", "file+extra", "raw-copy", "two-files"];
+pub const N_OPS: usize = 10;
+pub const OPS: [&str; N_OPS] = ["nothing", "file-stored", "file-deflated", "dir", "file+extra", "raw-copy", "two-files", "symlink", "aligned-large", "bzip2-empty+utf8"];
 pub const COMMENTS: [&str; 3] = ["keep", "shorter", "longer"];
 
 pub fn round_calls(op: usize, cm: usize, finish: bool, round: usize, seed: u64) -> (Vec<Call>, Vec<Exp>, Option<Vec<u8>>) {
@@ -107,6 +107,19 @@ pub fn round_calls(op: usize, cm: usize, finish: bool, round: usize, seed: u64) 
         6 => {
             file(format!("r{round}/one"), 93, &c300, &mut calls, &mut exp);
             file(format!("r{round}/two"), 0, &[], &mut calls, &mut exp);
+        }
+        7 => {
+            calls.push(Call::AddSymlink { name: format!("r{round}/link"), target: "stored".into(), opts: FOpts::m(0) });
+            exp.push(Exp { name: format!("r{round}/link"), content: Some(b"stored".to_vec()), method: 0, date: t.0, time: t.1, mode: Some(Some(0o120777)) });
+        }
+        8 => {
+            calls.push(Call::StartAligned { name: format!("r{round}/aligned"), opts: FOpts { large: true, perm: Some(0o600), ..FOpts::m(0) }, align: 64 });
+            calls.push(Call::Write(c17.clone()));
+            exp.push(Exp { name: format!("r{round}/aligned"), content: Some(c17.clone()), method: 0, date: t.0, time: t.1, mode: Some(Some(0o100600)) });
+        }
+        9 => {
+            calls.push(Call::StartFile { name: format!("r{round}/ü-empty"), opts: FOpts::m(12) });
+            exp.push(Exp { name: format!("r{round}/ü-empty"), content: Some(vec![]), method: 12, date: t.0, time: t.1, mode: Some(Some(0o100644)) });
         }
         _ => {}
     }
@@ -363,7 +376,7 @@ pub fn run(args: &Args) -> i32 {
     bs.extend(cpython_bases());
     let src = crate::props::c02::sources(seed);
     ctx.rule = format!(
-        "E-SEQ over append histories: state = archive bytes, transition = new_append + one of {{nothing, stored file, deflated file, directory, file with extra data, raw copy, two files}} x comment {{keep, replace shorter, replace longer}} x {{finish, drop}} (42 transitions). \
+        "E-SEQ over append histories: state = archive bytes, transition = new_append + one of {{nothing, stored file, deflated file, directory, file with extra data, raw copy, two files, symlink, aligned large_file entry, empty bzip2 entry with a non-ASCII name}} x comment {{keep, replace shorter, replace longer}} x {{finish, drop}} (60 transitions). \
          ALL histories of up to {rounds} rounds from {} base archives (writer-made: empty, every method, comment+dir+symlink, extra data+large_file, raw copy{}; builder-made: 1000-byte prefix, forced ZIP64 end records (with and without entries), forced ZIP64 fields, data descriptors, DOS/NTFS made-by, comments+extras+CP437 name, trailing garbage, reordered directory+gaps, method 14; CPython-made deflate/bzip2 with force_zip64). \
          After every round the crate reader and the independent parser must list the base entries (as the independent parser read them from the base) followed by everything appended so far, with names, contents, methods, DOS words, modes and the archive comment. distinct_nontrivial = distinct archive byte strings reached (hash set).",
         bs.len(),
